@@ -46,6 +46,9 @@ pub fn solver_cases(lm: &LinearModel, tags: &[String], stream: &str, variants: &
             SolverKind::Auto => gen_lp::mlp(&raw_milp).map(|r| format!("auto-wrap {} {}", lms, r)),
             SolverKind::MicroLp => gen_lp::mlp(&call(SolverKind::RawMicroLp)).map(|r| format!("microlp-wrap {} {}", lms, r)),
             SolverKind::Clarabel => gen_lp::clarabel_req(lm, &lms, variants, if hung.get() { Duration::from_millis(400) } else { TIMEOUT }),
+            // the tableau simplex involves no external solver: the WHOLE entry point is a model function
+            // (`SlowSimplex.solveReal`: standardize -> into_tableau -> solve(limit) -> as_lp_solution + error arms)
+            SolverKind::Simplex => Some(format!("simplex-wrap {} {} {}", sx::num(crate::gen_std::measured_tolerance()), if opts.simplex_limit == 0 { 10000 } else { opts.simplex_limit }, lms)),
             _ => None,
         }.unwrap_or_default();
         if matches!(o, Outcome::Hang) { c.req.clear(); }
